@@ -1066,7 +1066,11 @@ const tick = () => new Promise(r => setImmediate(r));
 async function runJob(job) {
   const ctx = vm.createContext({ __L: [], __P: [], __V: {} });
   const cache = new Map();
-  const resolve = (spec, parentURL) => spec.startsWith('file:') ? fileURLToPath(spec) : path.resolve(path.dirname(fileURLToPath(parentURL)), spec);
+  const resolve = (spec, parentURL) => {
+    if (spec.startsWith('file:')) return fileURLToPath(spec);
+    if (!(spec.startsWith('./') || spec.startsWith('../') || spec.startsWith('/'))) throw new Error("Cannot find package '" + spec + "' (bare specifier)");
+    return path.resolve(path.dirname(fileURLToPath(parentURL)), spec);
+  };
   const load = file => {
     let m = cache.get(file);
     if (!m) {
@@ -1400,36 +1404,58 @@ func runC10(seed uint64, n int, tier string, outDir string) []*Stats {
 		handle(g, randCfg(r), true, true)
 	}
 	// (2) incidence patterns: bounded-exhaustive in the thorough tier, sampled in quick
-	type pat struct{ k, n, bits int }
+	// A pattern is a k x n incidence matrix; column j (a subset of the entry
+	// points, as a bit mask) says which entry points import module j.  The
+	// thorough tier enumerates every multiset of columns for k <= 3, n <= 5
+	// (every incidence pattern up to renaming of the modules; the column
+	// order is then shuffled with the seed), the quick tier every matrix for
+	// n <= 2 plus a sample.
+	type pat struct {
+		k, n int
+		cols []int
+	}
 	var pats []pat
 	if tier == "thorough" {
 		for k := 2; k <= 3; k++ {
 			for nm := 1; nm <= 5; nm++ {
-				total := 1 << uint(k*nm)
-				if total <= 4096 {
-					for b := 0; b < total; b++ {
-						pats = append(pats, pat{k, nm, b})
+				var rec func(cur []int, lo int)
+				rec = func(cur []int, lo int) {
+					if len(cur) == nm {
+						cols := append([]int{}, cur...)
+						for i := len(cols) - 1; i > 0; i-- {
+							j := r.Intn(i + 1)
+							cols[i], cols[j] = cols[j], cols[i]
+						}
+						pats = append(pats, pat{k, nm, cols})
+						return
 					}
-				} else {
-					// 3x5 = 32768 patterns: every run covers a different residue class
-					for b := int(seed % 8); b < total; b += 8 {
-						pats = append(pats, pat{k, nm, b})
+					for c := lo; c < 1<<uint(k); c++ {
+						rec(append(cur, c), c)
 					}
 				}
+				rec(nil, 0)
 			}
 		}
 	} else {
 		for k := 2; k <= 3; k++ {
 			for nm := 1; nm <= 2; nm++ {
 				for b := 0; b < 1<<uint(k*nm); b++ {
-					pats = append(pats, pat{k, nm, b})
+					cols := make([]int, nm)
+					for j := range cols {
+						cols[j] = (b >> uint(j*k)) & (1<<uint(k) - 1)
+					}
+					pats = append(pats, pat{k, nm, cols})
 				}
 			}
 		}
 		for i := 0; i < n; i++ {
 			k := 2 + r.Intn(2)
 			nm := 3 + r.Intn(3)
-			pats = append(pats, pat{k, nm, r.Intn(1 << uint(k*nm))})
+			cols := make([]int, nm)
+			for j := range cols {
+				cols[j] = r.Intn(1 << uint(k))
+			}
+			pats = append(pats, pat{k, nm, cols})
 		}
 	}
 	for pi, p := range pats {
@@ -1437,11 +1463,11 @@ func runC10(seed uint64, n int, tier string, outDir string) []*Stats {
 		for a := range inc {
 			inc[a] = make([]bool, p.n)
 			for b := range inc[a] {
-				inc[a][b] = p.bits&(1<<uint(a*p.n+b)) != 0
+				inc[a][b] = p.cols[b]&(1<<uint(a)) != 0
 			}
 		}
 		g := genGraph(r, p.k, p.n, inc, false)
-		g.desc = fmt.Sprintf("incidence k=%d modules=%d pattern=%d", p.k, p.n, p.bits)
+		g.desc = fmt.Sprintf("incidence k=%d modules=%d columns=%v", p.k, p.n, p.cols)
 		cfg := buildCfg{MinifyIdent: pi%3 == 1}
 		oracle := tier == "thorough" && pi%16 == 0 || tier != "thorough" && pi%8 == 0
 		handle(g, cfg, true, oracle)
